@@ -728,8 +728,14 @@ def run_world(mains, schedule=None, policy="FIFO", fine=False, kill=None, max_st
         keep_dir = True
     else:
         wd = Path(tempfile.mkdtemp(prefix="vw", dir=os.environ.get("VERIF_SCRATCH", "/dev/shm")))
+    # "<policy>+rev": sets of dependencies / dependents are iterated in reverse creation order (the real sets are ordered by
+    # object address, i.e. arbitrarily: both orders are part of the explored space)
+    deporder = "fwd"
+    if policy.endswith("+rev"):
+        policy, deporder = policy[:-4], "rev"
     hub = Hub(schedule, policy, max_steps, kill, on_step, expect_widths)
     world = World(wd, fine)
+    world.deporder = deporder
     HUB, W = hub, world
     result = {"main_exc": {}, "returned": []}
     err = None
